@@ -38,6 +38,8 @@ const (
 	LocUmount
 	LocUnlink
 	LocMountRootReadonly
+	LocSetHostName
+	LocSetDomainName
 	LocChdir
 	LocSetRlimit
 	LocSetNoNewPrivs
@@ -74,6 +76,8 @@ var locToString = []string{
 	"umount",
 	"unlink",
 	"mount(readonly)",
+	"sethostname",
+	"setdomainname",
 	"chdir",
 	"setrlimt",
 	"set_no_new_privs",
